@@ -127,6 +127,19 @@ def replay(chk, h):
     if _plain(res_call) != _plain(res):
       chk.violation(f'call-api:differs:{kinds}', f'[{cfg}] runner(input_iterator=batches) = {res_call!r}, iteration reports {res!r}', ctx)
       continue
+    # the Aggregatable interface of the runner, batch by batch (create_state / update_state / get_result)
+    try:
+      runner = p.make()
+      state = runner.create_state()
+      for bt in batches:
+        state = runner.update_state(state, dict(bt))
+      res_steps = runner.get_result(state) if batches else res
+    except Exception as e:  # pylint: disable=broad-exception-caught
+      chk.violation(f'update-state-api:exception:{type(e).__name__}:{kinds}', f'[{cfg}] {e!r}', ctx)
+      continue
+    if batches and _plain(res_steps) != _plain(res):
+      chk.violation(f'update-state-api:differs:{kinds}', f'[{cfg}] create_state / update_state per batch / get_result = {res_steps!r}, iteration reports {res!r}', ctx)
+      continue
     got = {}
     res = dict(res) if res is not None else {}
     for k, v in res.items():
@@ -148,6 +161,37 @@ def replay(chk, h):
       if got and any(v for v in got.values()):
         chk.violation(f'empty-stream:{kinds}', f'[{cfg}] result {got}', ctx)
       continue
+    if arrays != '2d' and h['stream'] and not h['dis1']:
+      # a numeric aggregate state (running maximum of 3 - b: 0 and negative values occur), per slice
+      try:
+        pm = transform.TreeTransform.new().aggregate(fn=lib.RunningMax(), input_keys='b', output_keys='o1')
+        for sl in sorted(h['slicers']):
+          if sl in ('a', 'a_in1'):
+            pm = pm.add_slice('a', slice_fn=_key_a) if (arrays and sl == 'a') else (pm.add_slice('a') if sl == 'a' else pm.add_slice(dict(a=1)))
+            break
+        itm = pm.make().iterate(batches)
+        for _ in itm:
+          pass
+        resm = dict(itm.agg_result)
+      except Exception as e:  # pylint: disable=broad-exception-caught
+        chk.violation(f'numeric-state:exception:{type(e).__name__}:{kinds}', f'[{cfg}] {e!r}', ctx)
+        continue
+      rows_all = [r for bt in h['stream'] for r in bt]
+      want_max = max(3 - r['b'] for r in rows_all)
+      got_max = [v for k, v in resm.items() if not isinstance(k, transform.MetricKey)]
+      if not got_max or float(got_max[0]) != float(want_max):
+        chk.violation(f'numeric-state:unsliced', f'[{cfg}] running maximum of 3 - b over all rows = {got_max}, brute force {want_max}', ctx)
+        continue
+      bad_slice = None
+      for k, v in resm.items():
+        if isinstance(k, transform.MetricKey):
+          val = int(_item(k.slice.values[0]))
+          w = max(3 - r['b'] for r in rows_all if r['a'] == val)
+          if float(v) != float(w):
+            bad_slice = (val, v, w)
+      if bad_slice:
+        chk.violation('numeric-state:slice', f'[{cfg}] slice a={bad_slice[0]}: running maximum {bad_slice[1]}, brute force {bad_slice[2]}', ctx)
+        continue
     missing = sorted(k for k in want if k not in got)
     invented = sorted(k for k in got if k not in want)
     if missing:
